@@ -8,6 +8,7 @@ afterwards every constructed occurrence must show the new version rendered throu
 renderer, and config + `show` must report the announced version.
 """
 import itertools
+import re
 import os
 
 from .. import pool, projgen, world
@@ -162,6 +163,10 @@ def run_chunk(chunk):
     if alt != new_text and M.recognise(pat.tree, alt) == new:
         for lid, arrangement, files, entries, explicit_cfg in itertools.islice(layouts(pat, old, new, tier, fmt), 3):
             run_project(st, pat, label, old, new, fmt, lid, "set-version-respelled", files, entries, explicit_cfg, set_version=alt)
+    # another tool's look-alike sections with their own current_version keys stand before the bumpver section
+    for lid, arrangement, files, entries, explicit_cfg in itertools.islice(layouts(pat, old, new, tier, fmt), 8 if tier == "quick" else 40):
+        run_project(st, pat, label, old, new, fmt, lid, "look-alike-sections-before-the-config-section", files, entries, explicit_cfg, preamble=True)
+    config_reached_indirectly(st, pat, label, old, new, fmt)
     # stale occurrences: the files show ANOTHER version than the config's current_version (a file that was not kept up to date,
     # or an update that starts from a tag on another branch); every matched place must still end up at the new version
     for k, stale in enumerate(stale_states(pat, old, new, tier)):
@@ -181,6 +186,50 @@ def run_chunk(chunk):
     return st
 
 
+def config_reached_indirectly(st, pat, label, old, new, fmt):
+    """The config file holds a second version line ([project] version = ...) and is named in file_patterns only through a glob or
+    another spelling of its path, with an anchored pattern for that second line: both that line and current_version (through the
+    implicit entry of the config file) must show the new version."""
+    old_text, new_text = M.render(pat.tree, old), M.render(pat.tree, new)
+    toml = fmt.endswith(".toml")
+    q = '"' if toml else ""
+    if not toml and not pt.ini_expressible("^version = {version}"):
+        return
+    for key in (("*.toml" if toml else "*.cfg"), "./" + fmt, "sub/../" + fmt):
+        head = (f'[project]\nname = "demo"\nversion = {q}{old_text}{q}\n\n' if toml else f"[metadata]\nname = demo\nversion = {old_text}\n\n")
+        body = pt.config_text(fmt, pat.text, old_text, [(key, [f"^version = {q}{{version}}{q}"]), ("a.txt", ["ver={version};"])])
+        tree = {fmt: (head + body).encode("utf-8"), "a.txt": f"x\nver={old_text};\ny\n".encode(), "sub/keep.txt": b"keep\n"}
+        world.clear_dir(".")
+        world.write_tree(tree)
+        o = world.cli("update", "--no-fetch", "--ignore-vcs-tag", "--set-version", new_text)
+        st.evaluations += 1
+        st.transitions += 1
+        after = world.read_tree(".")
+        case = {"pattern": pat.text, "states": label, "old": old_text, "new": new_text, "format": fmt, "config_entry_key": key}
+        st.observe((case, o.exit, o.crashed, sorted(after.items())))
+        st.state(sorted(after.items()))
+        if o.exit != 0:
+            st.outcomes["update-refused:config-reached-indirectly"] += 1
+            st.counters["refused:" + ((o.logtext("ERROR").splitlines() or ["?"])[0][:60])] += 1
+            continue
+        st.validated += 1
+        st.nontriv(case)
+        st.outcomes["updated:config-reached-indirectly"] += 1
+        text = after[fmt].decode("utf-8", "replace")
+        cfgv = pt.read_config_version(fmt, text)
+        m2 = re.search(r'^version = "?([^"\n]*)"?$', text, flags=re.M)
+        problems = []
+        if cfgv != o.new_version:
+            problems.append(f"current_version is {cfgv!r}, announced {o.new_version!r}")
+        if not m2 or m2.group(1) != o.new_version:
+            problems.append(f"the [project]/[metadata] version line shows {m2.group(1) if m2 else None!r}, announced {o.new_version!r}")
+        if f"ver={o.new_version};" not in after["a.txt"].decode():
+            problems.append("a.txt not updated")
+        for why in problems:
+            st.outcomes["violation"] += 1
+            st.violation("C03:config:config-file-named-only-by-glob-or-other-spelling", case, {"problem": why, "content_after": text[:400]})
+
+
 def stale_states(pat, old, new, tier):
     """Other states of the same pattern (from the other version cases) - what a file that lags behind, or runs ahead, shows."""
     out = []
@@ -193,7 +242,15 @@ def stale_states(pat, old, new, tier):
     return out[:2] if tier == "quick" else out
 
 
-def build_project(pat, old, fmt, files, entries, explicit_cfg, file_state=None, cfg_eol="\n"):
+LEGACY_PREAMBLE = {
+    # another tool's section with a look-alike name and its own current_version key, standing BEFORE the bumpver section
+    "setup.cfg": "[bumpversion]\ncurrent_version=0.0.9\ncommit = True\n\n[bumpver_notes]\ncurrent_version: 0.0.8\n\n",
+    "bumpver.toml": "[bumpversion]\ncurrent_version='0.0.9'\n\n[tool.bumpversion]\ncurrent_version='0.0.8'\n\n",
+    "pyproject.toml": "[tool.bumpversion]\ncurrent_version='0.0.9'\n\n[tool.bumpver-extras]\ncurrent_version='0.0.8'\n\n",
+}
+
+
+def build_project(pat, old, fmt, files, entries, explicit_cfg, file_state=None, cfg_eol="\n", preamble=False):
     old_text = M.render(pat.tree, old)
     entries = list(entries)
     if any(e[0] == "README.md" for e in entries):
@@ -204,7 +261,8 @@ def build_project(pat, old, fmt, files, entries, explicit_cfg, file_state=None, 
         own = 'current_version = "{version}"' if fmt.endswith(".toml") else "current_version = {version}"
         entries = [(fmt, [own])] + entries
     # the config file is a pattern file too: it carries non-ASCII text (a comment) that must survive, in any locale
-    tree = {fmt: pt.config_text(fmt, pat.text, old_text, entries, extra="# préambule € \U0001F680").replace("\n", cfg_eol).encode("utf-8"),
+    tree = {fmt: ((LEGACY_PREAMBLE[fmt] if preamble else "") + pt.config_text(fmt, pat.text, old_text, entries, extra="# préambule € \U0001F680"))
+            .replace("\n", cfg_eol).encode("utf-8"),
             "bystander.txt": (old_text + "\n").encode()}
     for f in files:
         tree[f.name] = f.render_old(file_state or old).encode("utf-8")
@@ -212,11 +270,11 @@ def build_project(pat, old, fmt, files, entries, explicit_cfg, file_state=None, 
 
 
 def run_project(st, pat, label, old, new, fmt, lid, arrangement, files, entries, explicit_cfg, want=("occurrence",), prefix="C03", set_version=None,
-                stale=None, cfg_eol="\n"):
+                stale=None, cfg_eol="\n", preamble=False):
     old_text, new_text = M.render(pat.tree, old), M.render(pat.tree, new)
     if set_version is not None:
         new_text = set_version
-    tree, files = build_project(pat, old, fmt, files, entries, explicit_cfg, file_state=stale[1] if stale else None, cfg_eol=cfg_eol)
+    tree, files = build_project(pat, old, fmt, files, entries, explicit_cfg, file_state=stale[1] if stale else None, cfg_eol=cfg_eol, preamble=preamble)
     # the property excludes surrounding text that itself matches a configured pattern: such projects are not generated
     for f in files:
         for line in f.lines:
@@ -235,6 +293,8 @@ def run_project(st, pat, label, old, new, fmt, lid, arrangement, files, entries,
     case = {"pattern": pat.text, "states": label, "old": old_text, "new": new_text, "format": fmt, "layout": lid}
     if set_version is not None:
         case["respelled"] = True
+    if preamble:
+        case["preamble"] = True
     if stale is not None:
         case["stale"] = stale[0]
         case["files_show"] = M.render(pat.tree, stale[1])
@@ -306,13 +366,19 @@ def replay(case, st):
                         if case.get("respelled"):
                             arrangement = "set-version-respelled"
                         stale = None
+                        if case.get("config_entry_key"):
+                            config_reached_indirectly(st, pat, label, old, new, case["format"])
+                            os.chdir("/")
+                            return
+                        if case.get("preamble"):
+                            arrangement = "look-alike-sections-before-the-config-section"
                         if "stale" in case:
                             arrangement = "stale-occurrences"
                             stale = (case["stale"], stale_states(pat, old, new, "thorough")[case["stale"]])
                             if M.render(pat.tree, stale[1]) != case["files_show"]:
                                 stale = (case["stale"], stale_states(pat, old, new, "quick")[case["stale"]])
                         run_project(st, pat, label, old, new, case["format"], lid, arrangement, files, entries, explicit_cfg,
-                                    set_version=case["new"] if case.get("respelled") else None, stale=stale)
+                                    set_version=case["new"] if case.get("respelled") else None, stale=stale, preamble=bool(case.get("preamble")))
                         os.chdir("/")
                         return
     os.chdir("/")
